@@ -402,18 +402,33 @@ LAYOUT_CAUSES = ("no-space-after-object", "dot-glued-to-object-before-comment", 
                  "blank-node-subject-followed-by-tab")
 
 
+def without_line_separators(lex):
+    for ch in LINE_SEPARATORS:
+        lex = lex.replace(ch, "Z")
+    return lex
+
+
 def nt_attribute(case, outcome, read):
     """nt_classify + counterfactuals for the layout (read(variant case) -> outcome of the reader on that line):
       * a deviation that the same triple shows under the default layout too (single blanks, blank before the dot,
         no comment), with the same symptom class, is not caused by the layout: it takes the category found there;
       * what is left and already shows without the comment is put down to the separators;
       * what needs a comment but shows with the harmless comment ' # c' as well is the dot glued to the object;
-      * what needs the odd characters of the comment is the comment being scanned as part of the literal."""
+      * what needs the odd characters of the comment is the comment being scanned as part of the literal;
+      * a literal with a line-separator character is first compared with its twin that has a letter in that place:
+        only what the twin does not show is put down to the character."""
     devs = nt_classify(case, outcome)
-    if not devs or tuple(case[3:]) == DEFAULT_LAYOUT:
+    if not devs:
         return devs
     s, p, o, sep1, sep2, sep3, comment = case
     f = nt_features(case)
+    if "line-separator-in-lex" in f:
+        # counterfactual for the characters themselves: the same line with a harmless letter in their place
+        twin = (s, p, (o[0], without_line_separators(o[1])) + tuple(o[2:]), sep1, sep2, sep3, comment)
+        same = dict((d[1], d[0]) for d in nt_attribute(twin, read(twin), read))
+        return [(same.get(sym, "unicode-line-separator-in-literal"), sym, text) for (cat, sym, text) in devs]
+    if tuple(case[3:]) == DEFAULT_LAYOUT:
+        return devs
     plain = dict((d[1], d[0]) for d in nt_classify((s, p, o) + DEFAULT_LAYOUT, read((s, p, o) + DEFAULT_LAYOUT)))
     layout_cause = None
     if any(sym not in plain for (_, sym, _) in devs):
@@ -513,10 +528,19 @@ def nt_line_separator_documents():
                     yield [("line", c) for c in items]
 
 
-def nt_doc_oracle_check(items):
+def nt_doc_oracle_check(items, counterfactual=True):
     """A document of lines (default layout) against the oracle of its abstract triples: rows in document order,
-    error_triples == 0.  -> ([(category, symptom class, description)], document)."""
+    error_triples == 0.  -> ([(category, symptom class, description)], document).  A deviation that the twin
+    document (letters in place of the line-separator characters) shows as well is not put down to them."""
     cases = [x for k, x in items if k == "line"]
+    if counterfactual:
+        devs, doc = nt_doc_oracle_check(items, counterfactual=False)
+        if not devs:
+            return devs, doc
+        twins = [("line", (c[0], c[1], (c[2][0], without_line_separators(c[2][1])) + tuple(c[2][2:])) + tuple(c[3:])
+                  if c[2][0] == "L" else c) for c in cases]
+        same = set(d[1] for d in nt_doc_oracle_check(twins, counterfactual=False)[0])
+        return [("other" if sym in same else cat, sym, text) for (cat, sym, text) in devs], doc
     doc = "\n".join(nt_line(c) for c in cases) + "\n"
     exp = [nt_expected(c) for c in cases]
     r = read_nt(doc)
@@ -1093,3 +1117,157 @@ OUTSIDE_DIALECT = [
     ("sparql-style-directive", H + "BASE <http://other.org/>\nex:s1 ex:p <x> .\n"),
     ("directive-without-blank-before-dot", "@prefix ex: <http://ex.org/>.\nex:s1 ex:p ex:o1 .\n"),
 ]
+
+
+# ------------------------------------------------------------------------------------------------
+# C07: @prefix / @base declared again in the middle of a document (the later declaration wins from there on)
+# ------------------------------------------------------------------------------------------------
+def _redecl_expand(term, prefixes, base):
+    """Abstract node of a term text under the declarations in force (pure: independent of the reader)."""
+    if term == "a":
+        return ["IRI", RDF_TYPE]
+    if term.startswith("<"):
+        iri = term[1:-1]
+        return ["IRI", iri if ":" in iri else base + iri]
+    if term.startswith('"'):
+        return ["Literal", term[1:-1], XSD_STRING]
+    if term.startswith("_:"):
+        return ["BNode", term]
+    label, local = term.split(":", 1)
+    return ["IRI", prefixes[label] + local]
+
+
+def redecl_statement_tokens(st):
+    """st = [subject, [[predicate, [objects]], ...]] -> token texts."""
+    toks = [st[0]]
+    for i, (p, objs) in enumerate(st[1]):
+        if i:
+            toks.append(";")
+        toks.append(p)
+        for j, o in enumerate(objs):
+            if j:
+                toks.append(",")
+            toks.append(o)
+    toks.append(".")
+    return toks
+
+
+REDECL_LAYOUTS = ["one-statement-per-line", "break-after-punctuation", "one-token-per-line"]
+
+
+def redecl_text(case):
+    """case = {"parts": [[directive lines, statements], ...], "layout": one of REDECL_LAYOUTS}."""
+    out = []
+    for directives, statements in case["parts"]:
+        out.extend(directives)
+        for st in statements:
+            toks = redecl_statement_tokens(st)
+            if case["layout"] == "one-statement-per-line":
+                out.append(" ".join(toks))
+            elif case["layout"] == "one-token-per-line":
+                out.extend(toks)
+            else:
+                line = ""
+                for t in toks:
+                    line += ("" if not line else " ") + t
+                    if t in (";", ",", "."):
+                        out.append(line)
+                        line = "   "
+    return "\n".join(out) + "\n"
+
+
+_DIRECTIVE = re.compile(r"^@(prefix|base)\s+(?:(\S*):\s+)?<([^>]*)>\s+\.")
+
+
+def redecl_expected(case):
+    prefixes, base, rows = {}, None, []
+    for directives, statements in case["parts"]:
+        for d in directives:
+            m = _DIRECTIVE.match(d)
+            if m is None:
+                continue                                     # a comment line
+            if m.group(1) == "prefix":
+                prefixes[m.group(2)] = m.group(3)
+            else:
+                base = m.group(3)
+        for st in statements:
+            s = _redecl_expand(st[0], prefixes, base)
+            for (p, objs) in st[1]:
+                pn = _redecl_expand(p, prefixes, base)[1]
+                for o in objs:
+                    n = _redecl_expand(o, prefixes, base)
+                    rows.append(s + [pn] + (n + [None] if n[0] != "Literal" else n))
+    return rows
+
+
+def redecl_category(case):
+    seen, cats = {}, set()
+    for directives, _ in case["parts"]:
+        for d in directives:
+            m = _DIRECTIVE.match(d)
+            if m is None:
+                continue
+            k = ("prefix", m.group(2)) if m.group(1) == "prefix" else ("base", None)
+            if k in seen:
+                cats.add(k[0])
+            seen[k] = m.group(3)
+    return "prefix-redeclared" if "prefix" in cats else "base-redeclared" if "base" in cats else "other"
+
+
+def redecl_classify(case, outcome, exp_rows):
+    """-> [(category, symptom class, description)] with category prefix-redeclared / base-redeclared."""
+    cat = redecl_category(case)
+    if outcome[0] == "hang":
+        return [(cat, "hang", "hang")]
+    if outcome[0] == "raise":
+        return [(cat, "raise:" + outcome[1], "raise %s in %s: %s" % (outcome[1], outcome[2], outcome[3][:80]))]
+    got = ttl_norm_rows(outcome[1])
+    if got == exp_rows:
+        return []
+    if len(got) != len(exp_rows):
+        return [(cat, "extra-triple" if len(got) > len(exp_rows) else "missing-triple",
+                 "%d triples yielded, %d expected" % (len(got), len(exp_rows)))]
+    for i, (g, e) in enumerate(zip(got, exp_rows)):
+        d = _row_diff(g, e)
+        if d:
+            field, gv, ev = d[0]
+            cls = {"content": "wrong-content", "datatype": "wrong-datatype"}.get(field, "wrong-node")
+            return [(cat, cls, "triple %d: %s %r instead of %r (the declaration in force at that point is not applied)" % (i + 1, field, gv, ev))]
+    return [(cat, "wrong-node", "rows differ")]
+
+
+def ttl_redeclaration_cases():
+    """Documents that declare a prefix label (or the base) a second time with another namespace and use the same
+    names before and after; a label declared again with the same namespace, three declarations in a row (a, b, a),
+    a second label that is left alone, the empty prefix, a directive with a trailing comment; all in three layouts."""
+    A, B = "http://a.example/", "http://b.example/ns#"
+    full = [["ex:s1", [["ex:p", ["ex:o1", "ex:o2"]], ["a", ["ex:C"]], ["o:q", ['"x"', "o:v"]]]]]
+    simple = [["ex:s1", [["ex:p", ["ex:o1"]]]]]
+    two = [["ex:s1", [["ex:p", ["ex:o1"]]]], ["ex:s2", [["ex:p", ["ex:s1"]]]]]
+    keep = "@prefix o: <http://other.example/> ."
+
+    def pfx(label, ns, tail=""):
+        return "@prefix %s: <%s> .%s" % (label, ns, tail)
+    docs = [
+        [[[pfx("ex", A), keep], simple], [[pfx("ex", B)], simple]],
+        [[[pfx("ex", A), keep], full], [[pfx("ex", B)], full]],
+        [[[pfx("ex", A), keep], two], [[pfx("ex", B)], two], [[pfx("ex", A)], two]],
+        [[[pfx("ex", A), keep], full], [[pfx("ex", A)], full]],
+        [[[pfx("ex", A), keep], full], [[pfx("o", B)], full]],
+        [[[pfx("ex", A), keep], simple], [[pfx("ex", B, " # declared again")], simple]],
+        [[[pfx("ex", A), keep], simple], [["# the label gets another namespace", pfx("ex", B)], simple]],
+        [[[pfx("", A)], [[":s1", [[":p", [":o1", ":o2"]]]]]], [[pfx("", B)], [[":s1", [[":p", [":o1"]]]]]]],
+        [[[pfx("ex", A), pfx("e2", A)], [["ex:s1", [["e2:p", ["ex:o1"]]]]]], [[pfx("e2", B)], [["ex:s1", [["e2:p", ["e2:o1", "ex:o1"]]]]]]],
+        [[[pfx("ex", A), keep], [["_:b1", [["ex:p", ["ex:o1", "_:b1"]]]]]], [[pfx("ex", B)], [["_:b1", [["ex:p", ["ex:o1"]]]]]]],
+    ]
+    B1, B2 = "http://b1.example/x/", "http://b2.example/y/"
+    rel = [["<r1>", [["<rp>", ["<r2>", "<http://abs.example/o>"]], ["ex:p", ['"x"']]]]]
+    docs += [
+        [[[pfx("ex", A), "@base <%s> ." % B1], rel], [["@base <%s> ." % B2], rel]],
+        [[[pfx("ex", A), "@base <%s> ." % B1], rel], [["@base <%s> ." % B2], rel], [["@base <%s> ." % B1], rel]],
+        [[[pfx("ex", A), "@base <%s> ." % B1], rel], [["@base <%s> ." % B2, pfx("ex", B)], rel]],
+        [[[pfx("ex", A), "@base <%s> ." % B1], rel], [["@base <%s> ." % B1], rel]],
+    ]
+    for parts in docs:
+        for layout in REDECL_LAYOUTS:
+            yield {"parts": parts, "layout": layout, "family": "redeclaration"}
